@@ -118,22 +118,59 @@ type ContractSet struct {
 	Errors []string
 }
 
-var keywordRe = regexp.MustCompile(`^(func|let|valid|requires|ensures|panics|writes|modifies|loop|invariant|decreases|ensures-after|spec|lemma|pure|trusted|overflow:|floats:|mode:|props:|type|noread-before-write|inline|option|hyp|goal|var|witness|go-footprint|go-requires)\b`)
+var keywordRe = regexp.MustCompile(`^(?:(?:func|let|valid|requires|ensures|panics|writes|modifies|loop|invariant|decreases|ensures-after|spec|lemma|pure|trusted|type|noread-before-write|inline|option|hyp|goal|var|witness|go-footprint|go-requires)\b|(?:overflow:|floats:|mode:|props:))`)
+
+// desugarImplies rewrites `a ==> b` (lowest precedence, right associative, at
+// any nesting depth) into implies(a, b).
+func desugarImplies(s string) string {
+	if !strings.Contains(s, "==>") {
+		return s
+	}
+	if i := splitTop(s, "==>"); i >= 0 {
+		return "implies(" + desugarImplies(strings.TrimSpace(s[:i])) + ", " + desugarImplies(strings.TrimSpace(s[i+3:])) + ")"
+	}
+	var b strings.Builder
+	for i := 0; i < len(s); {
+		c := s[i]
+		if c == '(' || c == '[' {
+			closeCh := byte(')')
+			if c == '[' {
+				closeCh = ']'
+			}
+			depth := 0
+			j := i
+			for ; j < len(s); j++ {
+				if s[j] == '(' || s[j] == '[' {
+					depth++
+				} else if s[j] == ')' || s[j] == ']' {
+					depth--
+					if depth == 0 {
+						break
+					}
+				}
+			}
+			if j >= len(s) {
+				b.WriteString(s[i:])
+				break
+			}
+			parts := splitTopAll(s[i+1:j], ",")
+			for k := range parts {
+				parts[k] = desugarImplies(parts[k])
+			}
+			b.WriteByte(c)
+			b.WriteString(strings.Join(parts, ","))
+			b.WriteByte(closeCh)
+			i = j + 1
+			continue
+		}
+		b.WriteByte(c)
+		i++
+	}
+	return b.String()
+}
 
 func parseExprSrc(src string) (ast.Expr, error) {
-	// spec sugar: a ==> b  becomes implies(a, b) (lowest precedence, right assoc)
-	src = strings.TrimSpace(src)
-	if i := splitTop(src, "==>"); i >= 0 {
-		l, err := parseExprSrc(src[:i])
-		if err != nil {
-			return nil, err
-		}
-		r, err := parseExprSrc(src[i+3:])
-		if err != nil {
-			return nil, err
-		}
-		return &ast.CallExpr{Fun: ast.NewIdent("implies"), Args: []ast.Expr{l, r}}, nil
-	}
+	src = desugarImplies(strings.TrimSpace(src))
 	e, err := parser.ParseExpr(src)
 	if err != nil {
 		return nil, fmt.Errorf("%v in %q", err, src)
